@@ -23,7 +23,7 @@ import (
 // within capacity before the cycle" is judged on a state both sides agree on), and law 114 states
 // the property on what the real actions left behind.
 //
-// Actions: 1 preempt, 2 reclaim, 3 allocate, 4 backfill.
+// Actions: 1 preempt, 2 reclaim, 3 allocate, 4 backfill, 5 preempt with topology-aware preemption.
 
 func encNodes(ssn *framework.Session) []int64 {
 	nids := sched.SortedIDs(ssn.Nodes, func(n string) int64 { return sched.ParseID(n) })
@@ -47,6 +47,12 @@ func runActionList(w *evict.World, actions []int64) {
 			act = allocate.New()
 		case 4:
 			act = backfill.New()
+		case 5:
+			// preempt with enableTopologyAwarePreemption: dry run over node clones
+			// (SelectVictimsOnNode), then evictions + Pipeline WITHOUT a re-check
+			act = preempt.New()
+			w.Ssn.Configurations = []conf.Configuration{{Name: act.Name(),
+				Arguments: map[string]interface{}{preempt.EnableTopologyAwarePreemptionKey: true}}}
 		default:
 			panic(fmt.Sprint("unknown action ", a))
 		}
@@ -293,7 +299,63 @@ func stagedEvictSpec(r *vh.Rng) evict.Spec {
 	return spec
 }
 
+// topoPreemptSpec (directed family topopreempt/*): ONE node that keeps some idle room and holds k
+// equal running victims of a low-priority job; a starving high-priority gang of the same queue
+// with two preemptors tried in one session (pod priority order): A = 2 victims' worth -- it is
+// pipelined partly onto the idle room, so that Pipelined > Releasing on the node afterwards -- and B,
+// larger than one victim: it needs two further victims.  SelectVictimsOnNode removes potential
+// victims until the preemptor fits FutureIdle, then puts them back one by one ("reprieve") while
+// it still fits; topologyAwarePreempt evicts the rest and pipelines WITHOUT a re-check.  Victims are
+// equal, there is one node: the outcome does not depend on the order in which victims are popped.
+func topoPreemptSpec(r *vh.Rng, variant int) evict.Spec {
+	spec := evict.Spec{PGPhase: map[int64]int64{}, JPrio: map[int64]int64{}, JSys: map[int64]bool{}, TClass: map[int64]int64{}, QRecl: map[int64]int64{}}
+	spec.Actions = []int64{5}
+	if variant%4 == 3 {
+		spec.Actions = []int64{3, 5}
+	}
+	spec.Queues = []sched.QueueSpec{{ID: 1, Open: true, Weight: 1}}
+	s := int64(vh.Pick(r, []int64{1000, 1500, 2000}))
+	k := int64(r.Range(3, 4))
+	idle := s
+	if variant%4 == 1 {
+		idle = s + 500 // some more room: A still needs one victim, B still two
+	}
+	spec.Nodes = []sched.NodeSpec{{ID: 1, Has: true, CPU: k*s + idle, Mem: 64 << 20, Pods: 30}}
+	tid := int64(0)
+	for i := int64(0); i < k; i++ {
+		tid++
+		spec.Tasks = append(spec.Tasks, sched.TaskSpec{ID: tid, Job: 1, Role: 1, CPU: s, Mem: 1 << 20, Status: sched.SRunning, Node: 1, Preemptable: true})
+	}
+	spec.Jobs = append(spec.Jobs, sched.JobSpec{ID: 1, Queue: 1, Min: 0})
+	spec.PGPhase[1] = 3
+	spec.JPrio[1] = 0
+	a := 2 * s
+	bsz := s + 500*int64(r.Range(1, int(s/500)))
+	if variant%4 == 2 {
+		bsz = 2 * s
+	}
+	tid++
+	spec.Tasks = append(spec.Tasks, sched.TaskSpec{ID: tid, Job: 2, Role: 1, Prio: 2, CPU: a, Mem: 1 << 20, Status: sched.SPending, Preemptable: true})
+	tid++
+	spec.Tasks = append(spec.Tasks, sched.TaskSpec{ID: tid, Job: 2, Role: 1, Prio: 1, CPU: bsz, Mem: 1 << 20, Status: sched.SPending, Preemptable: true})
+	spec.Jobs = append(spec.Jobs, sched.JobSpec{ID: 2, Queue: 1, Min: 2})
+	spec.PGPhase[2] = 2
+	spec.JPrio[2] = 3
+	spec.Tiers = [][]evict.Plug{{{Kind: evict.KPrio, Pre: true, Rec: true}, {Kind: evict.KGang, Pre: true, Rec: true}, {Kind: evict.KConf, Pre: true, Rec: true}}}
+	return spec
+}
+
+func genTopoPreempt(rng *vh.Rng, n int, emit func(id string, sel int, in []int64, kind string, nontrivial bool, desc any)) {
+	names := []string{"idle=victim", "idle>victim", "b=two-victims", "after-allocate"}
+	for i := 0; i < n; i++ {
+		spec := topoPreemptSpec(rng.Fork(), i)
+		emit(fmt.Sprintf("topopreempt-%d", i), 4, encEvictCase(spec), fmt.Sprintf("topopreempt/%s/actions=%v", names[i%4], spec.Actions), true,
+			map[string]any{"directed": "topology-aware preempt: two preemptors of one gang on one node: " + names[i%4], "tasks": len(spec.Tasks)})
+	}
+}
+
 func genEvict(rng *vh.Rng, n int, emit func(id string, sel int, in []int64, kind string, nontrivial bool, desc any)) {
+	genTopoPreempt(rng.Fork(), max(8, n/25), emit)
 	k := n/2 + 1
 	for i := 0; i < k; i++ {
 		r := rng.Fork()
